@@ -1160,7 +1160,8 @@ Proof.
     try (apply agree_all_eq in A; subst; reflexivity).
   pose proof A as [L H].
   assert (P' : parse_token_or_root raw' = Ok (k, pos)).
-  { apply (parse_token_agree raw raw' k pos OK P). apply (agree_on_sub _ _ _ _ ltac:(intros x [<-|[]]; left; reflexivity) A). }
+  { apply (parse_token_agree raw raw' k pos OK P). eapply agree_on_sub; [|exact A].
+    intros x [<-|[]]. left; reflexivity. }
   pose proof (parse_token_spec _ _ _ P) as (E1 & E2 & M1 & M2 & Pp & Pl & _).
   pose proof (rd_nonneg 56 4 raw OK) as N1. pose proof (rd_nonneg 60 4 raw OK) as N2.
   assert (P0 : 0 <= pos).
